@@ -1,8 +1,44 @@
 import Driver.Proto
-/-! driver handlers for property C11 (ops `model.*`, `spec.*`, `trig.*`) -/
+import Verif.Model.Embed
+/-! driver handlers for property C11 -/
 namespace Verif.Driver.C11
-open Verif Verif.Driver
+open Verif Verif.Driver Verif.Model.Embed
 
-def handlers : List (String × Handler) := []
+def siteOf (name : String) (arg : List Char) : Option Site :=
+  match name with
+  | "htmlRaw.script" => some (.htmlRaw .script arg)
+  | "htmlRaw.style" => some (.htmlRaw .style arg)
+  | "htmlRaw.iframe" => some (.htmlRaw .iframe arg)
+  | "htmlSvg" => some .htmlSvg
+  | "htmlMath" => some .htmlMath
+  | "htmlStyleAttr" => some .htmlStyleAttr
+  | "htmlOnAttr" => some .htmlOnAttr
+  | "svgStyleText" => some (.svgStyleText (if arg.isEmpty then none else some arg))
+  | "svgStyleAttr" => some (.svgStyleAttr (if arg.isEmpty then none else some arg))
+  | _ => none
+
+/-- `model.c11.target site siteArg payload` → `[mime, payload, k1, v1, …]` -/
+def targetOp : Handler := fun args => do
+  let name ← argChars args 0
+  let arg ← argChars args 1
+  let p ← argChars args 2
+  match siteOf (String.ofList name) arg with
+  | none => .error "unknown site"
+  | some s =>
+    let t := target s p
+    let ps := t.params.foldr (fun (k, v) acc => charsToBytes k :: charsToBytes v :: acc) []
+    .ok (listReply ([charsToBytes t.mime, charsToBytes t.payload] ++ ps))
+
+/-- `model.c11.updatepos doc offset line col isParseErr` → `line,col` -/
+def updatePosOp : Handler := fun args => do
+  let doc ← argChars args 0
+  let off ← argNat args 1
+  let l ← argNat args 2
+  let c ← argNat args 3
+  let pe ← argBool args 4
+  let (l', c') := updatePos doc off l c pe
+  .ok (strBytes s!"{l'},{c'}")
+
+def handlers : List (String × Handler) := [("model.c11.target", targetOp), ("model.c11.updatepos", updatePosOp)]
 
 end Verif.Driver.C11
